@@ -709,16 +709,24 @@ func (r *Run) checkChunkReducer(fn *ssa.Function, call *ssa.Call, mapF, redF *ss
 	}
 	// reducer: uses value.Index for placement, never len(acc)-based append of whole acc order
 	usesIndex := false
+	var acc, val ssa.Value
+	if len(redF.Params) == 2 {
+		acc, val = redF.Params[0], redF.Params[1]
+		// the reducer may just delegate to a method/function that receives both
+		if body, bacc, bval := reducerBody(r, redF); body != nil {
+			redF, acc, val = body, bacc, bval
+		}
+	}
 	for _, ins := range allInstrs(redF) {
 		if ld, ok := ins.(*ssa.UnOp); ok && ld.Op == token.MUL {
-			if fa, ok := ld.X.(*ssa.FieldAddr); ok && fieldOf(fa) != nil && fieldOf(fa).Name() == "Index" && len(redF.Params) == 2 && fa.X == ssa.Value(redF.Params[1]) {
+			if fa, ok := ld.X.(*ssa.FieldAddr); ok && fieldOf(fa) != nil && fieldOf(fa).Name() == "Index" && val != nil && fa.X == val {
 				usesIndex = true
 			}
 		}
 	}
 	okRed := usesIndex
 	for _, ins := range allInstrs(redF) {
-		if sl, ok := ins.(*ssa.Slice); ok && sl.X == ssa.Value(redF.Params[0]) {
+		if sl, ok := ins.(*ssa.Slice); ok && sl.X == acc {
 			// acc[a:b]: bounds must derive from value.Index
 			for _, bnd := range []ssa.Value{sl.Low, sl.High} {
 				if bnd == nil {
@@ -1159,6 +1167,46 @@ func (r *Run) entryLocalCall(c *ssa.Call, l *mapLoop) bool {
 }
 
 // chunkBody: if mapF only forwards its index to one module function, analyse that function.
+// reducerBody: a reducer without slicing of its own that hands both of its parameters to
+// one module function: that function is the reducer's body.
+func reducerBody(r *Run, redF *ssa.Function) (*ssa.Function, ssa.Value, ssa.Value) {
+	for _, ins := range allInstrs(redF) {
+		if _, ok := ins.(*ssa.Slice); ok {
+			return nil, nil, nil
+		}
+	}
+	for _, ins := range allInstrs(redF) {
+		c, ok := ins.(*ssa.Call)
+		if !ok {
+			continue
+		}
+		sc := c.Call.StaticCallee()
+		if sc == nil {
+			continue
+		}
+		f := r.P.declared(sc)
+		if !inModule(f) || f.Blocks == nil {
+			continue
+		}
+		var acc, val ssa.Value
+		for i, a := range c.Call.Args {
+			if i >= len(f.Params) {
+				break
+			}
+			switch unwrap(a) {
+			case ssa.Value(redF.Params[0]):
+				acc = f.Params[i]
+			case ssa.Value(redF.Params[1]):
+				val = f.Params[i]
+			}
+		}
+		if acc != nil && val != nil {
+			return f, acc, val
+		}
+	}
+	return nil, nil, nil
+}
+
 func chunkBody(r *Run, mapF *ssa.Function, idx *ssa.Parameter) (*ssa.Function, *ssa.Parameter) {
 	hasSlice := false
 	for _, ins := range allInstrs(mapF) {
